@@ -328,6 +328,15 @@ func topologies() []topo {
 		{parents: []int{2}, tree: 3, msg: msgN(3), side: true}, {parents: []int{1, 3}, tree: 3, msg: "Merge branch 'side' (long side)\n"}}
 	add(topo{name: "merge-asym", commits: asym, branches: map[string]int{"main": 4, "side": 3}, lwTags: map[string]int{"vz": 2}, annTags: map[string]int{"ax": 1},
 		refsels: []refSel{rsDefault, rsEverything, rsIncExc("main-not-side", []string{"refs/heads/main"}, []string{"refs/heads/side"}), rsPositional("side", "side")}})
+	// REF-KIND dimension: references outside refs/heads and refs/tags (pull-request heads, Gerrit changes, a custom
+	// namespace) on an inner commit, on the tip (one sorting before and one after refs/heads/main), and on a side commit that no branch or tag reaches; selected by
+	// --everything and by --include-ref=<that ref> (manual: 'only local refs will be updated', refs/remotes/* are not)
+	add(topo{name: "lin3-pull", commits: lin(3), branches: map[string]int{"main": 2}, lwTags: map[string]int{"v0": 0},
+		others: map[string]int{"refs/pull/1/head": 1, "refs/changes/01/1/2": 2, "refs/pull/3/head": 2},
+		refsels: []refSel{rsEverything, rsIncExc("pull1", []string{"refs/pull/1/head"}, nil), rsIncExc("main+pull1", []string{"refs/heads/main", "refs/pull/1/head"}, nil)}})
+	add(topo{name: "fork-pull", commits: fork, branches: map[string]int{"main": 1}, annTags: map[string]int{"a0": 0},
+		others: map[string]int{"refs/pull/2/head": 2, "refs/keep-around/k0": 0},
+		refsels: []refSel{rsDefault, rsEverything, rsIncExc("pull2", []string{"refs/pull/2/head"}, nil)}})
 	// time stamp dimension for the graphs with merges: all commits in one second / the side line committed by a clock that runs behind
 	for _, base := range []string{"merge", "merge-asym", "merge-noside"} {
 		for _, d := range []string{"same", "skew"} {
